@@ -25,6 +25,15 @@ Proof.
 Qed.
 Print Assumptions C12_history_holds_for_current_tree.
 
+Theorem C12_history_with_vote_store_holds_for_current_tree :
+  forall fx, variant12 current_cfg12 = Some fx ->
+  forall q ops s e0, inv (h12_os s) -> Forall wf_op ops ->
+  P_history12 q (obs_of (h12_os s) e0) (h12_store s) (run_obs12 fx q s ops).
+Proof.
+  intros fx H. assert (E : variant12 current_cfg12 = Some true) by (vm_compute; reflexivity).
+  rewrite E in H. injection H as <-. exact history12_P.
+Qed.
+
 Theorem C12_module_solvent_in_current_tree :
   forall fx, variant12 current_cfg12 = Some fx ->
   forall q ops s, inv s -> Forall wf_op ops ->
